@@ -1,4 +1,958 @@
+//! mc-onion: bounded-exhaustive input enumeration for property C14
+//! ("Onions deliver exactly each hop's instructions; failures name the right hop").
+//!
+//! Families (all against the real code in lightning/src/ln/onion_utils.rs / onion_payment.rs):
+//!   deliver    – path length x amount class x expiry class x final payload x blinded tail:
+//!                `create_payment_onion`, then `peel_payment_onion` (and, via hook H3,
+//!                `decode_next_payment_hop`) under every hop's node signer, compared with the route;
+//!                fit / does-not-fit predicted by the harness' own TLV size model.
+//!   tamper     – every enumerated single-bit flip of the packet and of the payment hash at every hop.
+//!   failure    – failing hop x failure reason x data shape, re-wrapped upstream, decoded by the sender.
+//!   failtamper – single-bit flips of failure packets in flight.
+//!   fulfil     – fulfil attribution data (hold times), incl. partial support and in-flight flips.
+mod case;
+mod deliver;
+mod failure;
+mod tamper;
+mod world;
+
+use case::*;
+use deliver::*;
+use failure::*;
+use mc_common::cli::{self, Tier};
+use mc_common::evidence::{Evidence, Level};
+use mc_common::findings::{self, Violation};
+use mc_common::{json, par, Value};
+use std::collections::BTreeSet;
+use std::time::{Duration, Instant};
+use tamper::*;
+use world::*;
+
+const ID: &str = "C14";
+const MAX_VIOLATIONS_PER_FAMILY: usize = 40;
+
+#[derive(Default)]
+struct ItemOut {
+	stats: Stats,
+	violations: Vec<Violation>,
+	digests: Vec<u128>,
+	sample: Option<Value>,
+	skipped: bool,
+}
+
+fn violation(oracle: &str, spec: &Spec, extra_id: &str, detail: String, replay: Value) -> Violation {
+	Violation {
+		property: ID.to_string(),
+		oracle: oracle.to_string(),
+		identity: format!("{}|{}|{}", oracle, spec.id(), extra_id),
+		detail: format!("[{}] {}", spec.id(), detail),
+		replay,
+	}
+}
+
+// ------------------------------------------------------------------------------------------
+// enumeration
+// ------------------------------------------------------------------------------------------
+
+fn delivery_specs(tier: Tier) -> Vec<Spec> {
+	let mut fins = vec![
+		Fin::Secret,
+		Fin::SecretMpp,
+		Fin::Keysend,
+		Fin::KeysendSecret,
+		Fin::Meta(0),
+		Fin::Meta(1),
+		Fin::Meta(400),
+		Fin::MetaMax(0),
+		Fin::MetaMax(1),
+		Fin::Custom(0),
+		Fin::Custom(1),
+		Fin::CustomMax(0),
+		Fin::CustomMax(1),
+		Fin::Bare,
+	];
+	if tier.is_thorough() {
+		for l in [2usize, 100, 220, 251, 252, 253, 254, 255, 256, 257, 600, 1000, 1200, 1233] {
+			fins.push(Fin::Meta(l));
+		}
+	}
+	let mut v = Vec::new();
+	for n in 1..=28 {
+		for amt in 0..4u8 {
+			for cltv in 0..4u8 {
+				for fin in fins.iter() {
+					v.push(Spec { n, amt, cltv, fin: fin.clone(), blinded: 0 });
+				}
+			}
+		}
+	}
+	let bfins = [Fin::Secret, Fin::Keysend, Fin::Custom(0), Fin::Custom(1), Fin::CustomMax(0), Fin::CustomMax(1)];
+	for n in 1..=27 {
+		for blinded in 1..=3usize {
+			for amt in [1u8, 3] {
+				for cltv in [1u8, 2, 3] {
+					for fin in bfins.iter() {
+						v.push(Spec { n, amt, cltv, fin: fin.clone(), blinded });
+					}
+				}
+			}
+		}
+	}
+	v
+}
+
+/// Largest n (<= 27) for which this class fits by the harness' size model.
+fn max_n_for(w: &World, amt: u8, cltv: u8, fin: &Fin, blinded: usize) -> usize {
+	let mut best = 0;
+	for n in 1..=27 {
+		if let Some(c) = build_case(w, &Spec { n, amt, cltv, fin: fin.clone(), blinded }) {
+			if c.fits() {
+				best = n;
+			}
+		}
+	}
+	best
+}
+
+fn tamper_items(w: &World, tier: Tier) -> Vec<(Spec, usize)> {
+	let mut specs = Vec::new();
+	let base_max = max_n_for(w, 2, 1, &Fin::Secret, 0);
+	for n in 1..=base_max {
+		if tier.is_thorough() || [1, 2, 3, 4, 6, 9, 14, 20].contains(&n) || n == base_max {
+			specs.push(Spec { n, amt: 2, cltv: 1, fin: Fin::Secret, blinded: 0 });
+		}
+	}
+	let classes: Vec<(u8, u8, Fin)> = vec![(1, 3, Fin::KeysendSecret), (3, 2, Fin::MetaMax(0)), (0, 2, Fin::Custom(1))];
+	for (amt, cltv, fin) in classes {
+		let mx = max_n_for(w, amt, cltv, &fin, 0);
+		let mut ns: Vec<usize> = if tier.is_thorough() { vec![1, 2, 3, 7, mx / 2, mx - 1, mx] } else { vec![1, 2, mx] };
+		ns.sort();
+		ns.dedup();
+		for n in ns {
+			if n >= 1 && n <= mx {
+				specs.push(Spec { n, amt, cltv, fin: fin.clone(), blinded: 0 });
+			}
+		}
+	}
+	for blinded in 1..=3usize {
+		for n in if tier.is_thorough() { vec![1usize, 2, 3, 8] } else { vec![1usize, 3] } {
+			specs.push(Spec { n, amt: 1, cltv: 1, fin: Fin::Secret, blinded });
+		}
+	}
+	let mut items = Vec::new();
+	for s in specs {
+		for hop in 0..s.total_hops() {
+			items.push((s.clone(), hop));
+		}
+	}
+	items
+}
+
+/// The case whose per-hop shared secrets the failure/fulfil families use for a path of `n`
+/// unblinded hops: a policy-admissible one when it fits, the minimal-payload one otherwise.
+fn secrets_spec(w: &World, n: usize, blinded: usize) -> Option<Spec> {
+	for (amt, cltv, fin) in [(1u8, 1u8, Fin::Secret), (0, 2, Fin::Secret), (0, 0, Fin::Bare)] {
+		if blinded > 0 && fin == Fin::Bare {
+			continue;
+		}
+		let s = Spec { n, amt, cltv, fin, blinded };
+		if let Some(c) = build_case(w, &s) {
+			if c.fits() {
+				return Some(s);
+			}
+		}
+	}
+	None
+}
+
+fn obtain_secrets(w: &World, spec: &Spec) -> Result<(Case, Vec<[u8; 32]>), String> {
+	let c = build_case(w, spec).ok_or("case does not build")?;
+	let (packet, _, _) = construct(w, &c)?;
+	let mut out = Vec::new();
+	let secrets = if c.peel_admissible {
+		walk_peel(w, &c, &packet, c.exp_in[0], &mut out).map(|wk| wk.secrets)
+	} else {
+		walk_raw(w, &c, &packet, &mut out).map(|(_, s)| s)
+	};
+	match secrets {
+		Some(s) if out.is_empty() => Ok((c, s)),
+		_ => Err(format!("delivery walk failed: {:?}", out)),
+	}
+}
+
+fn failure_ns(tier: Tier) -> Vec<usize> {
+	if tier.is_thorough() {
+		(1..=27).collect()
+	} else {
+		vec![1, 2, 3, 4, 5, 8, 13, 19, 20, 21, 22, 27]
+	}
+}
+
+// ------------------------------------------------------------------------------------------
+// per-item runners (also used by --replay)
+// ------------------------------------------------------------------------------------------
+
+fn run_deliver(w: &World, spec: &Spec) -> ItemOut {
+	let mut o = ItemOut::default();
+	let c = match build_case(w, spec) {
+		Some(c) => c,
+		None => {
+			o.stats.inc("deliver_class_not_applicable");
+			return o;
+		},
+	};
+	let (mis, digest) = check_delivery(w, &c, &mut o.stats);
+	if let Some(d) = digest {
+		o.digests.push(d);
+		o.sample = Some(json!({"family": "deliver", "spec": spec.to_json(), "hops": c.hops_total(), "payload_bytes": c.predicted_total, "outcome": "every hop matched the route"}));
+	}
+	for (oracle, detail) in mis {
+		o.violations.push(violation(&oracle, spec, "", detail, json!({"family": "deliver", "spec": spec.to_json()})));
+	}
+	o
+}
+
+fn run_tamper(w: &World, spec: &Spec, hop: usize, all_bits: bool, only: Option<Flip>) -> ItemOut {
+	let mut o = ItemOut::default();
+	let c = match build_case(w, spec) {
+		Some(c) if c.fits() && c.peel_admissible => c,
+		_ => cli::die(&format!("tamper case {} is not constructible", spec.id())),
+	};
+	let packet = match construct(w, &c) {
+		Ok((p, _, _)) => p,
+		Err(e) => cli::die(&format!("tamper case {}: {}", spec.id(), e)),
+	};
+	let mut mis = Vec::new();
+	let walk = match walk_peel(w, &c, &packet, c.exp_in[0], &mut mis) {
+		Some(wk) if mis.is_empty() => wk,
+		_ => {
+			// the delivery family reports this; here it only means nothing can be flipped
+			o.stats.inc("tamper_untampered_walk_failed");
+			return o;
+		},
+	};
+	o.stats.inc("tamper_hop_packets");
+	if let Some(flip) = only {
+		o.stats.inc("tamper_cases");
+		if let Err(d) = try_flip(w, &c, &walk, hop, &flip, &mut o.stats) {
+			o.violations.push(violation("corrupted-input-accepted", spec, &format!("hop={}", hop), d, Value::Null));
+		}
+		return o;
+	}
+	for ((oracle, detail), extra) in check_tamper_hop(w, &c, &walk, hop, all_bits, &mut o.stats) {
+		let mut replay = json!({"family": "tamper", "spec": spec.to_json()});
+		for (k, v) in extra.as_object().unwrap() {
+			replay[k] = v.clone();
+		}
+		let extra_id = format!("hop={},{}", hop, extra.to_string());
+		o.violations.push(violation(&oracle, spec, &extra_id, detail, replay));
+	}
+	o
+}
+
+fn origin_json(o: &Origin) -> Value {
+	match o {
+		Origin::Local => json!("local"),
+		Origin::Raw(h) => json!({"raw": h}),
+	}
+}
+fn origin_from_json(v: &Value) -> Option<Origin> {
+	if v.as_str() == Some("local") {
+		return Some(Origin::Local);
+	}
+	Some(Origin::Raw(v.get("raw")?.as_u64()? as u32))
+}
+
+fn one_failure(w: &World, c: &Case, secrets: &[[u8; 32]], p: usize, origin: &Origin, reason: &lightning::ln::onion_utils::LocalHTLCFailureReason, data: &[u8], o: &mut ItemOut) {
+	o.stats.inc("failure_cases");
+	o.stats.inc(match origin {
+		Origin::Local => "failure_origin_local",
+		Origin::Raw(_) => "failure_origin_raw",
+	});
+	let msg = failure_roundtrip(secrets, p, origin, *reason, data);
+	o.stats.max("max_failure_packet_bytes", msg.reason.len() as u64);
+	if msg.reason.len() == 292 {
+		o.stats.inc("failure_packets_of_292_bytes");
+	}
+	let d = decode_failure(w, c, &msg);
+	let mut mis = Vec::new();
+	check_attribution(c, p, origin, reason, data, &d, &mut mis);
+	if mis.is_empty() {
+		o.stats.inc("failure_attributed_correctly");
+		o.stats.inc(&format!("failure_len_class_{}", match data.len() {
+			0 => "0",
+			1 => "1",
+			2..=254 => "2_254",
+			255 => "255",
+			256 => "256",
+			_ => "gt256",
+		}));
+		if d.hold_times.len() == MAX_ATTRIBUTABLE_HOPS {
+			o.stats.inc("failure_with_20_hold_times");
+		}
+		if d.failed_within_blinded_path {
+			o.stats.inc("failure_from_blinded_intro");
+		}
+		o.digests.push(mc_common::digest128(format!("{:?}", d).as_bytes()));
+	}
+	for (oracle, detail) in mis {
+		if o.violations.len() >= 6 {
+			break;
+		}
+		let code = bolt4_code(reason);
+		let replay = json!({"family": "failure", "spec": c.spec.to_json(), "p": p, "origin": origin_json(origin), "reason": reason_json(reason), "data": mc_common::hex(data)});
+		o.violations.push(violation(&oracle, &c.spec, &format!("p={},origin={},code={:#06x},len={}", p, origin_json(origin), code, data.len()), detail, replay));
+	}
+}
+
+const RAW_LENS: [usize; 8] = [0, 1, 253, 254, 255, 256, 257, 1000];
+
+fn run_failure_item(w: &World, spec: &Spec, p: usize, tier: Tier) -> ItemOut {
+	let mut o = ItemOut::default();
+	let (c, secrets) = match obtain_secrets(w, spec) {
+		Ok(x) => x,
+		Err(_) => {
+			o.stats.inc("failure_no_secrets");
+			return o;
+		},
+	};
+	let thorough = tier.is_thorough();
+	let local_lens: &[usize] = if thorough { &[0, 1, 136, 251, 252, 253, 254, 255, 998] } else { &[0, 136, 254] };
+	for (ri, r) in local_reasons().iter().enumerate() {
+		for data in local_datas(r, local_lens, (ri + p) as u8) {
+			one_failure(w, &c, &secrets, p, &Origin::Local, r, &data, &mut o);
+		}
+	}
+	let raw = Origin::Raw(hold_time(p));
+	for (ri, r) in raw_reasons().iter().enumerate() {
+		let full = thorough || matches!(ri, 0 | 7 | 13 | 21);
+		for (li, l) in RAW_LENS.iter().enumerate() {
+			if full || li == (ri + p) % RAW_LENS.len() {
+				let data: Vec<u8> = (0..*l).map(|i| (i as u8).wrapping_mul(13).wrapping_add(ri as u8)).collect();
+				one_failure(w, &c, &secrets, p, &raw, r, &data, &mut o);
+			}
+		}
+	}
+	if thorough && (p == 0 || p == spec.n - 1) {
+		// the largest failure data that still fits an update_fail_htlc with attribution data
+		for l in [60_000usize, 64_000] {
+			let data = vec![0x5a; l];
+			one_failure(w, &c, &secrets, p, &raw, &lightning::ln::onion_utils::LocalHTLCFailureReason::TemporaryChannelFailure, &data, &mut o);
+		}
+	}
+	// a failure the sender produced itself / got as update_fail_malformed from its first hop
+	if p == 0 {
+		use lightning::ln::onion_utils::verif_hooks::{verif_decode_local_onion_failure, verif_failure_code};
+		let r = lightning::ln::onion_utils::LocalHTLCFailureReason::InvalidOnionHMAC;
+		let data = vec![3u8; 32];
+		let d = verif_decode_local_onion_failure(&w.secp, &NullLogger, &c.path, &c.session_priv, r, data.clone());
+		o.stats.inc("failure_cases");
+		if d.onion_error_code.map(verif_failure_code) != Some(bolt4_code(&r)) || d.onion_error_data != Some(data) || d.short_channel_id != Some(c.path.hops[0].short_channel_id) {
+			o.violations.push(violation("failure-first-hop", spec, "", format!("first-hop failure decoded as {:?}", d), Value::Null));
+		} else {
+			o.stats.inc("failure_first_hop_attributed");
+		}
+	}
+	if o.sample.is_none() && o.violations.is_empty() {
+		o.sample = Some(json!({"family": "failure", "spec": spec.to_json(), "failing_hop": p, "cases": o.stats.get("failure_cases"), "outcome": "all attributed to the failing hop with code, data and hold times intact"}));
+	}
+	o
+}
+
+/// density 2: every bit; 1: one bit of every data byte and of every 4th attribution byte (the bit
+/// index rotates so all 8 positions occur); 0: every 4th of those.
+fn fail_flip_bits(data_len: usize, density: u8) -> Vec<FailFlip> {
+	let mut v = Vec::new();
+	let mut k = 0usize;
+	for byte in 0..data_len {
+		for bit in 0..8 {
+			if density == 2 || bit == byte % 8 {
+				k += 1;
+				if density > 0 || k % 4 == 0 {
+					v.push(FailFlip::Data(byte * 8 + bit));
+				}
+			}
+		}
+	}
+	for byte in 0..920 {
+		for bit in 0..8 {
+			if density == 2 || (byte % 4 == 0 && bit == (byte / 4) % 8) {
+				k += 1;
+				if density > 0 || k % 4 == 0 {
+					v.push(FailFlip::Attr(byte * 8 + bit));
+				}
+			}
+		}
+	}
+	v
+}
+
+fn flip_json(f: &FailFlip) -> Value {
+	match f {
+		FailFlip::Data(b) => json!({"data": b}),
+		FailFlip::Attr(b) => json!({"attr": b}),
+	}
+}
+fn flip_from_json(v: &Value) -> Option<FailFlip> {
+	if let Some(b) = v.get("data").and_then(|b| b.as_u64()) {
+		return Some(FailFlip::Data(b as usize));
+	}
+	Some(FailFlip::Attr(v.get("attr")?.as_u64()? as usize))
+}
+
+fn one_failtamper(w: &World, c: &Case, secrets: &[[u8; 32]], chain: &[FailMsg], p: usize, origin: &Origin, reason: &lightning::ln::onion_utils::LocalHTLCFailureReason, data: &[u8], m: usize, flip: &FailFlip, clean: &lightning::ln::onion_utils::verif_hooks::VerifDecodedFailure, o: &mut ItemOut) {
+	let msg = match tampered_roundtrip(secrets, chain, m, flip) {
+		Some(m) => m,
+		None => return,
+	};
+	o.stats.inc("failtamper_cases");
+	o.stats.inc(match flip {
+		FailFlip::Data(_) => "failtamper_data_bits",
+		FailFlip::Attr(_) => "failtamper_attribution_bits",
+	});
+	let d = decode_failure(w, c, &msg);
+	let mut mis = Vec::new();
+	check_tampered(c, p, m, clean, &d, &mut mis, &mut o.stats);
+	for (oracle, detail) in mis {
+		if o.violations.len() >= 6 {
+			break;
+		}
+		let replay = json!({"family": "failtamper", "spec": c.spec.to_json(), "p": p, "origin": origin_json(origin), "reason": reason_json(reason), "data": mc_common::hex(data), "m": m, "flip": flip_json(flip)});
+		o.violations.push(violation(&oracle, &c.spec, &format!("p={},m={},flip={}", p, m, flip_json(flip)), detail, replay));
+	}
+}
+
+fn run_failtamper_item(w: &World, spec: &Spec, p: usize, m: usize, density: u8) -> ItemOut {
+	use lightning::ln::onion_utils::LocalHTLCFailureReason as R;
+	let mut o = ItemOut::default();
+	let (c, secrets) = match obtain_secrets(w, spec) {
+		Ok(x) => x,
+		Err(_) => {
+			o.stats.inc("failtamper_no_secrets");
+			return o;
+		},
+	};
+	let (origin, reason, data): (Origin, R, Vec<u8>) = if p == spec.n - 1 {
+		(Origin::Local, R::IncorrectPaymentDetails, vec![0, 0, 0, 0, 0, 0, 3, 232, 0, 12, 53, 0])
+	} else {
+		(Origin::Raw(hold_time(p)), R::TemporaryChannelFailure, {
+			let mut d = vec![0u8, 136];
+			d.extend((0..136).map(|i| i as u8));
+			d
+		})
+	};
+	let chain = failure_chain(&secrets, p, &origin, reason, &data);
+	let clean_msg = chain[0].clone();
+	let clean = decode_failure(w, &c, &clean_msg);
+	let mut mis = Vec::new();
+	check_attribution(&c, p, &origin, &reason, &data, &clean, &mut mis);
+	if !mis.is_empty() {
+		o.stats.inc("failtamper_clean_baseline_failed");
+		return o;
+	}
+	for flip in fail_flip_bits(clean_msg.reason.len(), density) {
+		one_failtamper(w, &c, &secrets, &chain, p, &origin, &reason, &data, m, &flip, &clean, &mut o);
+	}
+	if o.violations.is_empty() {
+		o.sample = Some(json!({"family": "failtamper", "spec": spec.to_json(), "failing_hop": p, "corrupted_after_hop": m, "flips": o.stats.get("failtamper_cases"), "unattributed": o.stats.get("failtamper_unattributed"), "still_attributed": o.stats.get("failtamper_still_attributed_to_origin")}));
+	}
+	o
+}
+
+fn one_fulfil(w: &World, c: &Case, secrets: &[[u8; 32]], chain: &[lightning::ln::onion_utils::AttributionData], start: usize, final_hold: u32, tamper: Option<(usize, usize)>, o: &mut ItemOut) {
+	let ad = match tamper {
+		None => chain[0].clone(),
+		Some((m, bit)) => match tampered_fulfil(secrets, chain, m, bit) {
+			Some(a) => a,
+			None => return,
+		},
+	};
+	o.stats.inc("fulfil_cases");
+	let got = decode_fulfil(w, c, ad);
+	let want = expected_fulfil(c, start, final_hold);
+	let replay = json!({"family": "fulfil", "spec": c.spec.to_json(), "start": start, "final_hold": final_hold, "tamper": tamper.map(|(m, b)| json!([m, b]))});
+	match tamper {
+		None => {
+			if got != want {
+				o.violations.push(violation("fulfil-hold-times", &c.spec, &format!("start={},final_hold={}", start, final_hold), format!("fulfil attribution started at hop {}: sender reads {:?}, hops inserted {:?}", start, got, want), replay));
+			} else {
+				o.stats.inc("fulfil_hold_times_exact");
+				if got.len() == MAX_ATTRIBUTABLE_HOPS {
+					o.stats.inc("fulfil_with_20_hold_times");
+				}
+				if start + 1 < c.hops_total() {
+					o.stats.inc("fulfil_partial_support_exact");
+				}
+				o.digests.push(mc_common::digest128(format!("fulfil{:?}", got).as_bytes()));
+			}
+		},
+		Some((m, bit)) => {
+			o.stats.inc("fulfil_tamper_cases");
+			let a = c.spec.n.min(MAX_ATTRIBUTABLE_HOPS);
+			let prefix = got.len() <= want.len() && got[..] == want[..got.len()];
+			if !prefix || got.len() < m.min(a).min(want.len()) {
+				if o.violations.len() < 6 {
+					o.violations.push(violation("corrupted-fulfil-hold-times", &c.spec, &format!("start={},m={},bit={}", start, m, bit), format!("fulfil attribution corrupted after hop {} (bit {}): sender reads {:?}, hops inserted {:?}", m, bit, got, want), replay));
+				}
+			} else if got.len() == want.len() {
+				o.stats.inc("fulfil_tamper_harmless");
+			} else {
+				o.stats.inc("fulfil_tamper_truncated");
+			}
+		},
+	}
+}
+
+/// `part`: None = the untampered variants; Some(m) = flips of the data emitted by hop m.
+fn run_fulfil_item(w: &World, spec: &Spec, part: Option<usize>, tier: Tier) -> ItemOut {
+	let mut o = ItemOut::default();
+	let (c, secrets) = match obtain_secrets(w, spec) {
+		Ok(x) => x,
+		Err(_) => {
+			o.stats.inc("fulfil_no_secrets");
+			return o;
+		},
+	};
+	let h = c.hops_total();
+	match part {
+		None => {
+			one_fulfil(w, &c, &secrets, &fulfil_chain(&secrets, h - 1, 0), h - 1, 0, None, &mut o);
+			one_fulfil(w, &c, &secrets, &fulfil_chain(&secrets, h - 1, hold_time(h - 1)), h - 1, hold_time(h - 1), None, &mut o);
+			for k in 0..h - 1 {
+				one_fulfil(w, &c, &secrets, &fulfil_chain(&secrets, k, hold_time(k)), k, hold_time(k), None, &mut o);
+			}
+		},
+		Some(m) => {
+			let chain = fulfil_chain(&secrets, h - 1, hold_time(h - 1));
+			let all_bits = tier.is_thorough() && h <= 3;
+			for byte in 0..920usize {
+				for bit in 0..8 {
+					if all_bits || (byte % 4 == 0 && bit == (byte / 4) % 8) {
+						one_fulfil(w, &c, &secrets, &chain, h - 1, hold_time(h - 1), Some((m, byte * 8 + bit)), &mut o);
+					}
+				}
+			}
+		},
+	}
+	if o.violations.is_empty() {
+		o.sample = Some(json!({"family": "fulfil", "spec": spec.to_json(), "hops": h, "corrupted_after_hop": part, "cases": o.stats.get("fulfil_cases")}));
+	}
+	o
+}
+
+/// The degenerate zero-value route (outside the property's domain: BOLT 2 forbids 0-msat HTLCs)
+/// is only *observed*: does an earlier hop's fee leak into a later hop's amount_to_forward?
+fn observe_zero_value(w: &World, st: &mut Stats) {
+	use lightning::ln::onion_utils::verif_hooks::{verif_decode_next_payment_hop, VerifHop};
+	let spec = Spec { n: 3, amt: 0, cltv: 1, fin: Fin::Secret, blinded: 0 };
+	if let Some(mut c) = build_case(w, &spec) {
+		c.path.hops[0].fee_msat = 5;
+		c.path.hops[2].fee_msat = 0;
+		c.onion_fields.total_mpp_amount_msat = 0;
+		if let Ok((p, msat, _)) = construct(w, &c) {
+			if let Ok(VerifHop::Forward { amt_to_forward, .. }) = verif_decode_next_payment_hop(&p.public_key.unwrap(), &p.hop_data, p.hmac, c.payment_hash, None, &w.signers[0]) {
+				st.add("observed_zero_value_route_first_htlc_msat", msat);
+				st.add("observed_zero_value_route_hop0_amt_to_forward", amt_to_forward);
+			}
+		}
+	}
+}
+
+// ------------------------------------------------------------------------------------------
+// driver
+// ------------------------------------------------------------------------------------------
+
+struct Agg {
+	stats: Stats,
+	violations: Vec<Violation>,
+	digests: BTreeSet<u128>,
+	samples: Vec<Value>,
+	skipped: u64,
+}
+
+fn absorb(agg: &mut Agg, family: &str, results: Vec<Result<ItemOut, String>>, ids: &[String]) {
+	let mut fam_viol = 0usize;
+	let mut fam_samples = 0usize;
+	for (i, r) in results.into_iter().enumerate() {
+		match r {
+			Ok(o) => {
+				agg.stats.merge(&o.stats);
+				if o.skipped {
+					agg.skipped += 1;
+					agg.stats.inc(&format!("{}_items_skipped_by_cap", family));
+					continue;
+				}
+				agg.stats.inc(&format!("{}_items", family));
+				for d in o.digests {
+					agg.digests.insert(d);
+				}
+				if let Some(s) = o.sample {
+					if fam_samples < 3 {
+						agg.samples.push(s);
+						fam_samples += 1;
+					}
+				}
+				for v in o.violations {
+					if fam_viol < MAX_VIOLATIONS_PER_FAMILY {
+						agg.violations.push(v);
+						fam_viol += 1;
+					} else {
+						agg.stats.inc("violations_not_listed");
+					}
+				}
+			},
+			Err(panic) => {
+				agg.stats.inc("panics");
+				if fam_viol < MAX_VIOLATIONS_PER_FAMILY {
+					fam_viol += 1;
+					agg.violations.push(Violation {
+						property: ID.to_string(),
+						oracle: "no-panic".to_string(),
+						identity: format!("no-panic|{}|{}", family, ids[i]),
+						detail: format!("panic in the subject while running {} item {}: {}", family, ids[i], panic),
+						replay: json!({"family": "item", "item_family": family, "item": ids[i]}),
+					});
+				}
+			},
+		}
+	}
+}
+
+fn replay(w: &World, args: &cli::Args, path: &std::path::Path) -> ! {
+	let text = std::fs::read_to_string(path).unwrap_or_else(|e| cli::die(&format!("cannot read {}: {}", path.display(), e)));
+	let v: Value = mc_common::serde_json::from_str(&text).unwrap_or_else(|e| cli::die(&format!("replay file does not parse: {}", e)));
+	let r = v.get("replay").cloned().unwrap_or(Value::Null);
+	let fam = r.get("family").and_then(|f| f.as_str()).unwrap_or_else(|| cli::die("replay has no family"));
+	let spec = r.get("spec").and_then(Spec::from_json);
+	par::set_quiet(false);
+	let res = par::guarded(|| -> ItemOut {
+		match fam {
+			"deliver" => run_deliver(w, &spec.clone().unwrap_or_else(|| cli::die("no spec"))),
+			"tamper" => {
+				let spec = spec.clone().unwrap_or_else(|| cli::die("no spec"));
+				let hop = r["hop"].as_u64().unwrap_or(0) as usize;
+				let flip = match (r.get("packet_bit").and_then(|b| b.as_u64()), r.get("hash_bit").and_then(|b| b.as_u64())) {
+					(Some(b), _) => Flip::Packet(b as usize),
+					(_, Some(b)) => Flip::Hash(b as usize),
+					_ => cli::die("tamper replay without a bit"),
+				};
+				run_tamper(w, &spec, hop, false, Some(flip))
+			},
+			"failure" | "failtamper" => {
+				let spec = spec.clone().unwrap_or_else(|| cli::die("no spec"));
+				let mut o = ItemOut::default();
+				let (c, secrets) = obtain_secrets(w, &spec).unwrap_or_else(|e| cli::die(&e));
+				let p = r["p"].as_u64().unwrap_or(0) as usize;
+				let origin = origin_from_json(&r["origin"]).unwrap_or_else(|| cli::die("bad origin"));
+				let reason = reason_from_json(&r["reason"]).unwrap_or_else(|| cli::die("bad reason"));
+				let data = mc_common::unhex(r["data"].as_str().unwrap_or("")).unwrap_or_default();
+				if fam == "failure" {
+					one_failure(w, &c, &secrets, p, &origin, &reason, &data, &mut o);
+				} else {
+					let m = r["m"].as_u64().unwrap_or(0) as usize;
+					let flip = flip_from_json(&r["flip"]).unwrap_or_else(|| cli::die("bad flip"));
+					let chain = failure_chain(&secrets, p, &origin, reason, &data);
+					let clean = decode_failure(w, &c, &chain[0]);
+					one_failtamper(w, &c, &secrets, &chain, p, &origin, &reason, &data, m, &flip, &clean, &mut o);
+				}
+				o
+			},
+			"fulfil" => {
+				let spec = spec.clone().unwrap_or_else(|| cli::die("no spec"));
+				let mut o = ItemOut::default();
+				let (c, secrets) = obtain_secrets(w, &spec).unwrap_or_else(|e| cli::die(&e));
+				let tamper = r.get("tamper").and_then(|t| t.as_array()).map(|a| (a[0].as_u64().unwrap_or(0) as usize, a[1].as_u64().unwrap_or(0) as usize));
+				let start = r["start"].as_u64().unwrap_or(0) as usize;
+				let final_hold = r["final_hold"].as_u64().unwrap_or(0) as u32;
+				one_fulfil(w, &c, &secrets, &fulfil_chain(&secrets, start, final_hold), start, final_hold, tamper, &mut o);
+				o
+			},
+			"item" => {
+				// a panic: re-run the whole work item
+				let item: Value = mc_common::serde_json::from_str(r["item"].as_str().unwrap_or("null")).unwrap_or(Value::Null);
+				let spec = item.get("spec").and_then(Spec::from_json).unwrap_or_else(|| cli::die("no spec in item"));
+				match r["item_family"].as_str().unwrap_or("") {
+					"deliver" => run_deliver(w, &spec),
+					"tamper" => run_tamper(w, &spec, item["hop"].as_u64().unwrap_or(0) as usize, args.tier.is_thorough(), None),
+					"failure" => run_failure_item(w, &spec, item["p"].as_u64().unwrap_or(0) as usize, args.tier),
+					"failtamper" => run_failtamper_item(w, &spec, item["p"].as_u64().unwrap_or(0) as usize, item["m"].as_u64().unwrap_or(0) as usize, item["density"].as_u64().unwrap_or(1) as u8),
+					"fulfil" => run_fulfil_item(w, &spec, item["part"].as_u64().map(|m| m as usize), args.tier),
+					f => cli::die(&format!("unknown item family {}", f)),
+				}
+			},
+			f => cli::die(&format!("unknown replay family {}", f)),
+		}
+	});
+	match res {
+		Ok(o) if o.violations.is_empty() => {
+			println!("REPLAY: property={} no violation (the recorded input now passes)", ID);
+			std::process::exit(0)
+		},
+		Ok(o) => {
+			for v in o.violations.iter() {
+				println!("REPLAY: VIOLATION property={} oracle={} {}", ID, v.oracle, v.detail);
+			}
+			std::process::exit(1)
+		},
+		Err(p) => {
+			println!("REPLAY: VIOLATION property={} oracle=no-panic {}", ID, p);
+			std::process::exit(1)
+		},
+	}
+}
+
 fn main() {
-	let _args = mc_common::cli::parse();
-	mc_common::cli::die("engine not built yet");
+	let args = cli::parse();
+	if !args.property.is_empty() && args.property != ID {
+		cli::die(&format!("mc-onion serves {} only", ID));
+	}
+	par::install_quiet_panic_hook();
+	let w = World::new();
+	if let Some(p) = args.replay.clone() {
+		replay(&w, &args, &p);
+	}
+	let tier = args.tier;
+	let cap_s = if args.wall_cap_s > 0 { args.wall_cap_s } else if tier.is_thorough() { 2400 } else { 55 };
+	let start = Instant::now();
+	let deadline = start + Duration::from_secs(cap_s);
+	let only = args.opt("family").map(|s| s.to_string());
+	let want = |f: &str| only.as_deref().map(|o| o == f).unwrap_or(true);
+	let threads = args.threads;
+	let mut ev = Evidence::new(ID, tier, args.seed, Level::Exploration);
+	let mut agg = Agg { stats: Stats::default(), violations: Vec::new(), digests: BTreeSet::new(), samples: Vec::new(), skipped: 0 };
+	let mut timings = Vec::new();
+	let over = |d: Instant| Instant::now() >= d;
+
+	// ---- deliver ----
+	if want("deliver") {
+		let t = Instant::now();
+		let specs = delivery_specs(tier);
+		let ids: Vec<String> = specs.iter().map(|s| json!({"spec": s.to_json()}).to_string()).collect();
+		let res = par::map(&specs, threads, |_, s| {
+			if over(deadline) {
+				return ItemOut { skipped: true, ..Default::default() };
+			}
+			run_deliver(&w, s)
+		});
+		absorb(&mut agg, "deliver", res, &ids);
+		observe_zero_value(&w, &mut agg.stats);
+		timings.push(("deliver", t.elapsed().as_secs_f64()));
+	}
+	// ---- tamper ----
+	if want("tamper") {
+		let t = Instant::now();
+		let items = tamper_items(&w, tier);
+		let ids: Vec<String> = items.iter().map(|(s, h)| json!({"spec": s.to_json(), "hop": h}).to_string()).collect();
+		let res = par::map(&items, threads, |_, (s, hop)| {
+			if over(deadline) {
+				return ItemOut { skipped: true, ..Default::default() };
+			}
+			let mut o = run_tamper(&w, s, *hop, tier.is_thorough(), None);
+			if o.violations.is_empty() && *hop == 0 {
+				o.sample = Some(json!({"family": "tamper", "spec": s.to_json(), "hop": hop, "flips": o.stats.get("tamper_cases"), "rejected": o.stats.get("tamper_rejected") + o.stats.get("tamper_rejected_at_wire_decode")}));
+			}
+			o
+		});
+		absorb(&mut agg, "tamper", res, &ids);
+		timings.push(("tamper", t.elapsed().as_secs_f64()));
+	}
+	// ---- failure ----
+	if want("failure") {
+		let t = Instant::now();
+		let mut items: Vec<(Spec, usize)> = Vec::new();
+		for n in failure_ns(tier) {
+			if let Some(s) = secrets_spec(&w, n, 0) {
+				for p in 0..n {
+					items.push((s.clone(), p));
+				}
+			} else {
+				agg.stats.inc("failure_path_lengths_without_a_fitting_route");
+			}
+		}
+		for (n, b) in [(1usize, 1usize), (2, 1), (2, 2), (5, 2), (3, 3), (20, 2)] {
+			if let Some(s) = secrets_spec(&w, n, b) {
+				for p in 0..n {
+					items.push((s.clone(), p));
+				}
+			}
+		}
+		// longest items first: better load balance
+		items.sort_by(|a, b| (b.0.n, b.1).cmp(&(a.0.n, a.1)).then(a.0.cmp(&b.0)));
+		let ids: Vec<String> = items.iter().map(|(s, p)| json!({"spec": s.to_json(), "p": p}).to_string()).collect();
+		let res = par::map(&items, threads, |_, (s, p)| {
+			if over(deadline) {
+				return ItemOut { skipped: true, ..Default::default() };
+			}
+			run_failure_item(&w, s, *p, tier)
+		});
+		absorb(&mut agg, "failure", res, &ids);
+		timings.push(("failure", t.elapsed().as_secs_f64()));
+	}
+	// ---- failtamper ----
+	if want("failtamper") {
+		let t = Instant::now();
+		let mut items: Vec<(Spec, usize, usize, u8)> = Vec::new();
+		let ns: Vec<usize> = if tier.is_thorough() { vec![1, 2, 3, 4, 6, 12, 20, 21, 27] } else { vec![1, 2, 3, 6, 21] };
+		for n in ns {
+			if let Some(s) = secrets_spec(&w, n, 0) {
+				let ps: BTreeSet<usize> = if tier.is_thorough() && n <= 6 { (0..n).collect() } else { [n - 1, n / 2].into_iter().collect() };
+				for p in ps {
+					let ms: BTreeSet<usize> = if tier.is_thorough() || p <= 6 { (0..=p).collect() } else { [0, 1, p / 2, p - 1, p].into_iter().collect() };
+					for m in ms {
+						let density = if tier.is_thorough() { if n <= 3 { 2 } else { 1 } } else if n <= 6 { 1 } else { 0 };
+						items.push((s.clone(), p, m, density));
+					}
+				}
+			}
+		}
+		items.sort_by(|a, b| (b.3, b.0.n, b.1, b.2).cmp(&(a.3, a.0.n, a.1, a.2)));
+		let ids: Vec<String> = items.iter().map(|(s, p, m, d)| json!({"spec": s.to_json(), "p": p, "m": m, "density": d}).to_string()).collect();
+		let res = par::map(&items, threads, |_, (s, p, m, d)| {
+			if over(deadline) {
+				return ItemOut { skipped: true, ..Default::default() };
+			}
+			run_failtamper_item(&w, s, *p, *m, *d)
+		});
+		absorb(&mut agg, "failtamper", res, &ids);
+		timings.push(("failtamper", t.elapsed().as_secs_f64()));
+	}
+	// ---- fulfil ----
+	if want("fulfil") {
+		let t = Instant::now();
+		let mut items: Vec<(Spec, Option<usize>)> = Vec::new();
+		let mut specs: Vec<Spec> = Vec::new();
+		for n in 1..=27 {
+			if let Some(s) = secrets_spec(&w, n, 0) {
+				specs.push(s);
+			}
+		}
+		for (n, b) in [(1usize, 2usize), (2, 2), (3, 3), (19, 2), (20, 3)] {
+			if let Some(s) = secrets_spec(&w, n, b) {
+				specs.push(s);
+			}
+		}
+		for s in specs {
+			items.push((s.clone(), None));
+			let h = s.total_hops();
+			let tampered = tier.is_thorough() || [1, 2, 3, 5, 12, 20, 21, 27].contains(&h);
+			if tampered {
+				let ms: BTreeSet<usize> = if tier.is_thorough() || h <= 6 { (0..h).collect() } else { [0, 1, h / 2, h - 2, h - 1].into_iter().collect() };
+				for m in ms {
+					items.push((s.clone(), Some(m)));
+				}
+			}
+		}
+		items.sort_by(|a, b| (b.0.n, b.1).cmp(&(a.0.n, a.1)).then(a.0.cmp(&b.0)));
+		let ids: Vec<String> = items.iter().map(|(s, part)| json!({"spec": s.to_json(), "part": part}).to_string()).collect();
+		let res = par::map(&items, threads, |_, (s, part)| {
+			if over(deadline) {
+				return ItemOut { skipped: true, ..Default::default() };
+			}
+			run_fulfil_item(&w, s, *part, tier)
+		});
+		absorb(&mut agg, "fulfil", res, &ids);
+		timings.push(("fulfil", t.elapsed().as_secs_f64()));
+	}
+
+	// ---- vacuity guards ----
+	let st = &agg.stats;
+	let capped = agg.skipped > 0;
+	let mut guards: Vec<(&str, bool)> = Vec::new();
+	if want("deliver") && !capped {
+		guards.push(("some onion delivered with every field matching", st.get("deliver_fully_matched") > 0));
+		guards.push(("a path of >= 26 hops was constructed and delivered", st.get("max_path_len_delivered") >= 26));
+		guards.push(("a path of >= 20 hops was peeled with peel_payment_onion", st.get("max_path_len_peeled") >= 20));
+		guards.push(("an oversize route was refused", st.get("deliver_refused_oversize") > 0));
+		guards.push(("a packet was filled to the byte", st.get("deliver_filled_to_the_byte") > 0));
+		for b in 1..=3 {
+			guards.push(("each blinded tail length was enumerated", st.get(&format!("deliver_blinded_tail_{}", b)) > 0));
+		}
+		for f in ["secret", "secret-mpp", "keysend", "keysend-secret", "metadata", "metadata-max-fit", "metadata-too-big", "custom-tlvs", "custom-max-fit", "custom-too-big", "bare"] {
+			guards.push(("each final payload family was enumerated", st.get(&format!("deliver_final_{}", f)) > 0));
+		}
+		guards.push(("the bare final payload is refused by policy only after decoding", st.get("deliver_bare_refused_by_policy") > 0));
+	}
+	if want("tamper") && !capped {
+		guards.push(("tampered packets were rejected", st.get("tamper_rejected") > 0));
+		guards.push(("HMAC rejections observed", st.get("tamper_reject_reason_InvalidOnionHMAC") > 0));
+		guards.push(("bad-key rejections observed", st.get("tamper_reject_reason_InvalidOnionKey") > 0));
+		guards.push(("bad-version rejections observed", st.get("tamper_reject_reason_InvalidOnionVersion") > 0));
+		guards.push(("payment-hash flips were run", st.get("tamper_payment_hash_bits") > 0));
+		guards.push(("no tamper item lost its baseline", st.get("tamper_untampered_walk_failed") == 0 || !agg.violations.is_empty()));
+	}
+	if want("failure") && !capped {
+		guards.push(("failures were attributed correctly", st.get("failure_attributed_correctly") > 0));
+		guards.push(("failures with 20 hold times were decoded", st.get("failure_with_20_hold_times") > 0));
+		guards.push(("every data-length class was decoded", ["0", "1", "2_254", "255", "256", "gt256"].iter().all(|c| st.get(&format!("failure_len_class_{}", c)) > 0)));
+		guards.push(("blinded-intro failures were seen", st.get("failure_from_blinded_intro") > 0));
+		guards.push(("all failure items had secrets", st.get("failure_no_secrets") == 0 || !agg.violations.is_empty()));
+	}
+	if want("failtamper") && !capped {
+		guards.push(("corrupted failures became unattributable", st.get("failtamper_unattributed") > 0));
+		guards.push(("attribution-only corruption kept the attribution", st.get("failtamper_still_attributed_to_origin") > 0));
+		guards.push(("hold times stopped at the corrupting hop", st.get("failtamper_hold_times_stop_at_corrupting_hop") > 0));
+		guards.push(("failtamper baselines held", st.get("failtamper_clean_baseline_failed") == 0 || !agg.violations.is_empty()));
+	}
+	if want("fulfil") && !capped {
+		guards.push(("fulfil hold times decoded exactly", st.get("fulfil_hold_times_exact") > 0));
+		guards.push(("20 fulfil hold times decoded", st.get("fulfil_with_20_hold_times") > 0));
+		guards.push(("corrupted fulfil data was truncated", st.get("fulfil_tamper_truncated") > 0));
+	}
+	for (name, ok) in guards.iter() {
+		if !ok {
+			cli::die(&format!("vacuity guard failed: {}", name));
+		}
+	}
+
+	// ---- evidence ----
+	let evaluations = st.get("deliver_cases") + st.get("tamper_cases") + st.get("failure_cases") + st.get("failtamper_cases") + st.get("fulfil_cases");
+	ev.set("evaluations", evaluations);
+	ev.set("distinct_nontrivial", agg.digests.len() as u64);
+	ev.set(
+		"rule",
+		"distinct successful outcomes: 128-bit digests of (a) first-hop onion packets that were constructed and then peeled hop by hop down to a final Receive with every per-hop field equal to the route, (b) decoded failure attributions that matched the failing hop, code, data and hold times, (c) decoded fulfil hold-time vectors that matched",
+	);
+	ev.set("exhaustive", !capped);
+	ev.set("capped", capped);
+	ev.set("items_skipped_by_cap", agg.skipped);
+	ev.set("wall_cap_s", cap_s);
+	ev.set("threads", threads as u64);
+	ev.set("max_path_length_found", st.get("max_path_len_constructed"));
+	let mut counts = mc_common::serde_json::Map::new();
+	for (k, v) in st.0.iter() {
+		counts.insert(k.clone(), json!(v));
+	}
+	ev.set("counts", Value::Object(counts));
+	ev.set("family_wall_s", Value::Object(timings.iter().map(|(k, v)| (k.to_string(), json!((v * 100.0).round() / 100.0))).collect()));
+	ev.set(
+		"bounds",
+		json!({
+			"path_lengths": "1..=28 unblinded hops (28 never fits), blinded tails of 1..=3 hops on 1..=27 unblinded hops",
+			"amount_classes": ["all fees 0, value 1 msat", "fees i+1, value 1000", "amounts on every tu64 byte-length boundary (255/256 .. 2^56)", "value 1000 msat below the 21M BTC cap"],
+			"expiry_classes": ["height 0, deltas 0 (hook decode only)", "height 800000, deltas 48..72", "height 1, deltas 48", "height 499990000"],
+			"final_payloads": ["secret", "secret with MPP total", "keysend", "keysend+secret", "metadata 0/1/400 (thorough: 14 more lengths)", "metadata max-that-fits and one byte more", "custom TLVs (one; five incl. both neighbours of the keysend type and u64::MAX)", "one custom TLV max-that-fits and one byte more", "bare"],
+			"tamper_bits": if tier.is_thorough() { "all 10928 bits of the packet + 256 payment-hash bits, at every hop" } else { "all bits of version/ephemeral key/HMAC, one bit of every hop-data byte (bit index = byte index mod 8), 256 payment-hash bits, at every hop" },
+			"failure": "failing hop 0..n x 46 named reasons + unknown codes x BOLT-4-shaped data (through HTLCFailReason::reason) and arbitrary data lengths {0,1,253,254,255,256,257,1000} (through build_failure_packet)",
+		}),
+	);
+	for s in agg.samples.iter().take(16) {
+		ev.sample(s.clone(), 16);
+	}
+	ev.assume("secp256k1, SHA-256, HMAC and ChaCha20 behave to specification");
+	ev.assume("routes pay at least 1 msat to the recipient (BOLT 2 forbids 0-msat HTLCs); the zero-value route is only observed, see counts.observed_zero_value_route_*");
+	ev.assume("hop keys are 34 fixed KeysManager node keys; session key and filler seed are fixed per case (the code under test is key-agnostic apart from EC arithmetic)");
+	ev.assume("peel_payment_onion is given relay-policy-admissible routes (expiry deltas >= 48, total <= 2016); arbitrary expiries/amounts go through decode_next_payment_hop (hook H3)");
+	ev.assume("trampoline, phantom and dummy hops are outside the enumeration");
+	ev.assume("failure/fulfil helpers are reached through add-only hook H3 wrappers that call the crate-private functions unchanged");
+	eprintln!(
+		"C14 {}: evaluations={} distinct={} violations={} capped={} wall={:.1}s families={:?}",
+		tier.name(),
+		evaluations,
+		agg.digests.len(),
+		agg.violations.len(),
+		capped,
+		start.elapsed().as_secs_f64(),
+		timings
+	);
+	std::process::exit(findings::conclude(ID, &agg.violations, &mut ev));
 }
